@@ -159,7 +159,7 @@ def _c29(ctx):
         "RRDP outcomes are produced, not injected. The copy: none / current (successful update) / expired (successful update with "
         "refresh 1 s and fallback time 0: best-before 1-2 s later, then a 3.3 s wait); the stored best-before is read back to "
         "confirm the state before the run. This run's update: ok (with a copy: one delta to apply) / the delta answers 404 (the "
-        "snapshot is taken instead) / the notification answers 500 / a good notification whose snapshot answers 404 (with a copy: "
+        "snapshot is taken instead) / the notification answers an error or a redirect the client does not follow (500, 503, 404, 403, 301, 302, 307, 308 in turn) / a good notification whose snapshot answers 404 (with a copy: "
         "after a new session, so that no delta can be tried)",
         "for rows with RRDP disabled or a CA without rpkiNotify the local copy is prepared all the same and must not matter",
     ]
